@@ -330,7 +330,7 @@ def finish(ctx):
 
 SHRINK = g.shrinker("script")
 
-# main classes: everything the quantifier names, control codes doubled; the triggers of findings C-1, C-2 and C-3 are kept out by construction
+# main classes: everything the quantifier names, control codes doubled; the triggers of findings C-1 .. C-4 are kept out by construction
 P_POP = g.profile(styles=("pop",))
 P_ROLL = g.profile(styles=("roll",))
 P_PAINT = g.profile(styles=("paint",))
@@ -342,6 +342,7 @@ P_CLASSES = g.profile(mix=True, undoubled=True, row_order=True, roll_base=True, 
 P_C1 = g.profile(styles=("paint",), paint_c1=True, max_caps=4)
 P_C2 = g.profile(italics_on_colour=True, max_caps=3)
 P_C3 = g.profile(styles=("roll",), trailing_mid=True, max_caps=3)
+P_C4 = g.profile(styles=("paint",), paint_c4=True, max_caps=3)
 
 COMMON = ("null-padding", "channel-2-burst", "field-2-code", "tab-offset", "pac-attributes", "mid-row-code", "special-char", "extended-char",
           "backspace", "timecode:DF", "timecode:NDF", "parity:odd", "parity:cleared", "parity:mixed", "align:auto", "align:left",
@@ -361,4 +362,5 @@ PARTS = {
              required_labels=("paint:caption-below-earlier-paint-on-caption",)),
   "c2": Part("c2", check, strategy=cases(P_C2), n=(320, 16000), shrinker=SHRINK),
   "c3": Part("c3", check, strategy=cases(P_C3), n=(320, 16000), shrinker=SHRINK, required_labels=("row-ends-with-mid-row-code",)),
+  "c4": Part("c4", check, strategy=cases(P_C4), n=(320, 16000), shrinker=SHRINK),
 }
